@@ -5,6 +5,7 @@ CONSTANTS
   MaxNonNone = 0
   MaxScopes = 4
   Dmarcs = {"off", "quar"}
+  ExtraV = {"rq", "rqp"}
   Only1On = TRUE
   WithRemote = TRUE
   Kinds = {"pipe", "rpipe"}
